@@ -656,3 +656,7 @@ mod test {
         });
     }
 }
+
+#[cfg(kani)]
+#[path = "/verif/harness/may_queue/mpsc.rs"]
+mod verif_kani;
